@@ -162,6 +162,15 @@ func EvalEx(e *Ex, pts []SubPoint, fields map[string]*Ex) (float64, bool) {
 			return 0, false
 		}
 		return float64(hist.ValueAtQuantile(e.Pct)) / scale, true
+	case "PCTOPT":
+		// another percentile of the wrapped percentile's histogram
+		in := e.Args[0]
+		for in.Op == "PCTOPT" {
+			in = in.Args[0]
+		}
+		cp := *in
+		cp.Pct = e.Pct
+		return EvalEx(&cp, pts, fields)
 	case "IF":
 		sub := make([]SubPoint, 0, len(pts))
 		for i := range pts {
